@@ -138,3 +138,13 @@ Theorem C09_v2_ignore_window_forwards_in_order : forall c dq layer,
   exists c', drain_inputs c dq layer = Ok (c', dq ++ cv_queue c) /\ cv_queue c' = [] /\ cv_chords c' = cv_chords c.
 Proof. exact ignore_window_forwards_in_order. Qed.
 Print Assumptions C09_v2_ignore_window_forwards_in_order.
+
+(* defchordsv2, a release reaches every active chord: when the queue walk meets the release of key j, every active chord stays the
+   same chord at the same position of the list, waits for no more keys than before, and each chord that j belongs to no longer
+   waits for j -- wherever in the list it is stored and however many chords are active *)
+Theorem C09_v2_release_reaches_every_active_chord : forall q npress achs dq q' achs' dq' qd,
+  drain_releases q npress achs dq = Ok (q', achs', dq') ->
+  In qd q -> q_press qd = false ->
+  Forall2 (no_longer_waits (snd (q_coord qd))) achs achs'.
+Proof. exact release_reaches_every_active_chord. Qed.
+Print Assumptions C09_v2_release_reaches_every_active_chord.
